@@ -26,9 +26,8 @@ Inductive sres :=
    4  cross dial: both nodes call Connect towards each other at the same time (two handshakes in
       opposite directions); one case per direction: the i_ fields describe the node that opened the streams, the r_
       fields the node that answered.
-      There is no model of two simultaneous opposite handshakes; the case is compared with the
-      one-directional model's final outcome only (every schedule of it ends handled) and judged
-      by the property checker *)
+      Compared with the final outcome of the cross-dial world of the model under one canonical
+      schedule, and judged by the property checker *)
 Record case := {
   id : N;
   klass : N;
@@ -166,10 +165,18 @@ Definition explains_outcome_only (c : case) (sched : list who) : bool :=
   let w := run deployed (cfg_of c) sched in
   ret_agrees w c && all2 sres_agrees (wr w) (outcomes c).
 
+(* class 4 against the cross-dial world: a = the node that opened the streams, b = the one that
+   answered; final outcome and Connect result only (which Connect takes the shortcut, and how
+   many streams end before the release, depends on the race between the two dials) *)
+Definition x_explains (c : case) : bool :=
+  let x := xrun (ini (cfg_of c)) (rsp (cfg_of c)) (x_full (N.to_nat (nstreams c))) in
+  match ret1 x with
+  | Some (a, t) => connect_ok c && (a =? addrN (ret_addr c)) && (t =? ret_type c)
+  | None => negb (connect_ok c)
+  end && all2 sres_agrees (sA x) (outcomes c).
+
 Definition agrees (c : case) : bool :=
-  if klass c =? 4 then
-    let n := N.to_nat (nstreams c) in
-    existsb (explains_outcome_only c) [sched_open_before_release n; sched_open_after_release n]
+  if klass c =? 4 then x_explains c
   else
   if klass c =? 3 then
     existsb (m_explains c) (m_candidates c) && m_early_agrees c && negb (reg_at_gate c) &&
